@@ -48,6 +48,11 @@ def check(run):
         a = base(); a["identityPathIndex"] = list(pat); A.append(a)
     for lim, mid in [(1, 0), (2, 1), (2**16, 0), (2**16, 2**16 - 1), (100, 99), (65535, 65534)]:
         a = base(); a["userMessageLimit"] = [lim]; a["messageId"] = [mid]; A.append(a)
+    # every bit of the 16-bit range check: message ids with exactly one bit set / cleared, and limits just above them
+    for k in (range(16) if not quick else rng.sample(range(16), 6)):
+        for mid in (1 << k, (1 << 16) - 1 - (1 << k)):
+            a = base(); a["userMessageLimit"] = [2**16]; a["messageId"] = [mid]; A.append(a)
+        a = base(); a["messageId"] = [1 << k]; a["userMessageLimit"] = [(1 << k) + 1]; A.append(a)
     a = base()
     for k in ("identitySecret", "x", "externalNullifier"):
         a[k] = [0]
